@@ -20,11 +20,11 @@ def reset():
 
 
 def set_size(size: int):
-    for cached in _cached:
-        wrapped = cached.__wrapped__
-        setattr(
-            sys.modules[wrapped.__module__], wrapped.__name__, lru_cache(size)(wrapped)
-        )
+    for wrapped in {cached.__wrapped__: None for cached in _cached}:
+        resized = lru_cache(size)(wrapped)
+        setattr(sys.modules[wrapped.__module__], wrapped.__name__, resized)
+        # former caches are kept, because they can still be referenced (imported names)
+        _cached.append(resized)
 
 
 K = TypeVar("K")
